@@ -12,6 +12,8 @@
   dataKeyResolve F-3   `write_file` / `set_file_len` key the pending op by the name the inode has now
   fsyncResolve   F-10  `sync_file` flushes the data ops keyed by the name the inode has now
                        (`resolve_content_path`), not by the name it was called with
+  crashTree      F-12a `Fs::crash` first forgets the durable name of every entry one of whose proper
+                       ancestors (below the root) is not a durable directory: the crash image is a tree
 -/
 import TvFs.Model.Fs
 import TvFs.Model.Spec
@@ -26,19 +28,22 @@ structure Fixes where
   syncRenameBoth : Bool := false
   fsyncResolve : Bool := false
   dataKeyResolve : Bool := false
+  crashTree : Bool := false
   deriving DecidableEq, Repr, Inhabited
 
-/-- the repairs that are committed in /repo (61ef052 8aa6329 977a543 3508629 5c93fae 69c39a4): the
-    model of the code as it is now.  F-5 (`renameKind`) is a verified candidate that was not taken. -/
+/-- the repairs that are committed in /repo (61ef052 8aa6329 977a543 3508629 5c93fae 69c39a4 and the
+    crash-image repair of F-C07-12a): the model of the code as it is now.  F-5 (`renameKind`) is a
+    verified candidate that was not taken. -/
 def Fixes.committed : Fixes :=
   { readOrder := true, childRenamedIn := true, createOverDir := true, syncRenameBoth := true,
-    fsyncResolve := true, dataKeyResolve := true }
+    fsyncResolve := true, dataKeyResolve := true, crashTree := true }
 
 /-- `a` has at least the repairs of `b` -/
 def Fixes.includes (a b : Fixes) : Bool :=
   (!b.readOrder || a.readOrder) && (!b.renameKind || a.renameKind) && (!b.childRenamedIn || a.childRenamedIn)
   && (!b.createOverDir || a.createOverDir) && (!b.syncRenameBoth || a.syncRenameBoth)
   && (!b.fsyncResolve || a.fsyncResolve) && (!b.dataKeyResolve || a.dataKeyResolve)
+  && (!b.crashTree || a.crashTree)
 
 /-! ### existence (F-5): scan with the source's kind looked up at that point of the log -/
 
@@ -263,6 +268,22 @@ def rmdirAllFx (fx : Fixes) (s : Fs) (p : Path) : Fs × Option Err :=
       | .ok s2 => (s2, none)
       | .error e => (r.1, some e)
 
+/-! ### crash (F-12a): the crash image is a tree -/
+
+/-- the proper ancestors of `p` below the root: `p.take 1`, …, `p.take (p.length - 1)` -/
+def properAncestors (p : Path) : List Path := (List.range (p.length - 1)).map fun k => p.take (k + 1)
+
+/-- directories that are persisted and have a durable name -/
+def durableDirs (s : Fs) : List Path := s.dirs.filter fun d => s.synced.contains d
+
+def attachedTo (dd : List Path) (p : Path) : Bool := (properAncestors p).all fun a => dd.contains a
+
+/-- forget the durable name of every entry that is unreachable from the root -/
+def forgetUnreachable (s : Fs) : Fs := { s with synced := s.synced.filter (attachedTo (durableDirs s)) }
+
+def crashFx (fx : Fixes) (s : Fs) (block : Option Nat) (torn : List Nat) : Fs :=
+  crash (if fx.crashTree then forgetUnreachable s else s) block torn
+
 /-- one shim call on the model with repair flags -/
 def stepFx (fx : Fixes) (cfg : Cfg) (st : St) (op : Op) (ora : Ora) : St × Obs :=
   match op with
@@ -355,7 +376,7 @@ def stepFx (fx : Fixes) (cfg : Cfg) (st : St) (op : Op) (ora : Ora) : St × Obs 
     | .error e => (st, .err e)
     | .ok fs1 => ({ st with fs := writeFsFx fx fs1 p 0 d ora.coin }, .ok)
   | .dump pool => (st, .dump (([] :: pool).map fun p => (p, viewOfFx fx st.fs p)))
-  | .crash => ({ fs := crash st.fs cfg.block ora.torn, slots := fun _ => none }, .ok)
+  | .crash => ({ fs := crashFx fx st.fs cfg.block ora.torn, slots := fun _ => none }, .ok)
 
 def runFx (fx : Fixes) (cfg : Cfg) : St → List (Op × Ora) → List Obs
   | _, [] => []
